@@ -66,8 +66,8 @@ ReadOnlyRule(e) ==
        ELSE IF e.method = "SetErr"
          THEN Same(e) /\ e.postro = "true" /\ e.postlive = "true"
        ELSE IF e.method = "Init" /\ e.typ = "Condition"
-         THEN TRUE
-       ELSE /\ Same(e) /\ e.postro = "true" /\ e.posterr = e.preerr /\ e.postlive = "true"
+         THEN e.twin = "same"         \* Init REPLACES the instance behind this handle: every other holder still sees the old one, untouched
+       ELSE /\ Same(e) /\ e.postro = "true" /\ e.posterr = e.preerr /\ e.postlive = "true" /\ e.twin = "same"
             /\ (e.method = "Free" => e.errres = "true")
 
 \* a read-only instance handed to ANOTHER instance's method as an argument
